@@ -177,6 +177,57 @@ def directed_alias(rnd):
     return p
 
 
+def directed_bundle_pick(rnd):
+    """Directed family: the version installed afresh is not the highest match (the highest is deprecated, the
+    latest tag does not satisfy), and the installed version, the highest one or both ship a bundle."""
+    p = skeleton2(rnd, np=3)
+    for k in list(p):
+        if k.endswith("t") and (k.startswith("p") or k.startswith("r") or k.startswith("b")):
+            p[k] = 0
+        if k.startswith("bn"):
+            p[k] = 0
+    A, B, C = rnd.sample([1, 2, 3], 3)
+
+    def put(tag, t, digit, op=1, kind=0, alias=0):
+        p.update({tag + "t": t, tag + "r": op, tag + "k": kind, tag + "a": alias, tag + "c": digit})
+
+    def ver(pk, vi, major, minor=0, bl=0):
+        tag = "%d%d" % (pk - 1, vi)
+        p.update({"mj" + tag: major, "mi" + tag: minor, "pr" + tag: 0, "bl" + tag: bl})
+        return tag
+    via_c = rnd.random() < 0.4
+    if via_c:   # the bundler is required one level down
+        put("r0", C, 1)
+        p["nv%d" % (C - 1)] = 1
+        put("p%ss0" % ver(C, 0, 1), A, rnd.choice([0, 1]), op=rnd.choice([2, 3, 4]))
+    else:
+        put("r0", A, rnd.choice([0, 1]), op=rnd.choice([2, 3, 4]))   # ^D.0.0, >=D.0.0, D.x
+        p["nv%d" % (C - 1)] = 1
+        ver(C, 0, 1)
+    if rnd.random() < 0.5:
+        put("r1", B, rnd.choice([1, 2, 3]), op=rnd.choice([1, 2]))
+    # the bundler: 1.0.0, 1.1.0 deprecated, maybe 2.0.0 tagged latest (does not satisfy ^1 / 1.x)
+    three = rnd.random() < 0.5
+    p["nv%d" % (A - 1)] = 3 if three else 2
+    tags = [ver(A, 0, 1, 0, 0), ver(A, 1, 1, 1, 1)] + ([ver(A, 2, 2, 0, 0)] if three else [])
+    p["latest%d" % (A - 1)] = 2 if three and rnd.random() < 0.7 else -1
+    p["next%d" % (A - 1)] = -1
+    ships = rnd.choice([(1, 0), (0, 1), (1, 1), (1, 1)])
+    for vi in (0, 1):
+        put("p%ss0" % tags[vi], B, rnd.choice([1, 2, 3]), op=rnd.choice([1, 2, 0]), kind=4 if ships[vi] else 0)
+        if ships[vi]:
+            p["bn" + tags[vi]] = rnd.choice([1, 2, 3])
+            if rnd.random() < 0.4:
+                put("b" + tags[vi], C, 1, op=rnd.choice([0, 1]))
+    p["anybundle"] = 1
+    p["nv%d" % (B - 1)] = 3
+    for vi, mj in enumerate(rnd.sample([1, 2, 3], 3)):
+        ver(B, vi, mj)
+    p["latest%d" % (B - 1)] = rnd.choice([-1, 0, 1, 2])
+    p["next%d" % (B - 1)] = -1
+    return p
+
+
 def run(tier):
     q = tier == "quick"
     base = dict(unwind=400, timeout_s=300 if q else 1200, summarise=SUM, max_witnesses=1, witness_every=50, panic_is_violation=True,
@@ -192,10 +243,11 @@ def run(tier):
     jobs2 += [dict(base, harness="VerifC06Install", params=directed_alias(rnd2)) for _ in range(24 if q else 240)]
     # universes with bundled (derived) packages: the graph clauses only
     jobs2 += [dict(base, harness="VerifC06Install", params=skeleton2(rnd2, bundle_p=0.35)) for _ in range(300 if q else 4000)]
+    jobs2 += [dict(base, harness="VerifC06Install", params=directed_bundle_pick(rnd2)) for _ in range(40 if q else 400)]
     return run_property("C06", tier, [Group("rnpm", jobs + jobs2)],
                         required_covers=["resolved", "a graph with several nodes", "fresh install checked", "a nested install (depth 2)",
-                                         "a nested install below a nested install (depth 3)", "an edge resolved to a nested install", "a bundled copy used"],
+                                         "a nested install below a nested install (depth 3)", "an edge resolved to a nested install", "a bundled copy used", "the bundle of an installed version looked for"],
                         assumptions=["universe skeletons are a fixed pseudo-random sample (first generation: 3 packages + root, <=3 versions, one requirement slot per version; second generation: 3-4 packages + root, <=3 versions with minor 0/1 and optional -rc, two requirement slots per version and four on the root, kinds regular/optional/dev/peer/bundle-scoped/dev+optional, aliases in a quarter of the skeletons, two requirements of one version on one package only in the combinations package.json merging defines); version majors and the digits in requirements are symbolic in 1..4",
                                      "the install tree is observed through the verif-tagged hook at the end of npm Resolve (util/resolve/npm/verif_hook.go); the tree clauses are: tree nodes = graph nodes, no directory holds a package name twice (children vs aliases), Node's walk-up lookup from the dependent lands on the edge's target",
-                                     "bundled (derived) packages (a version brings along a copy of the package its first requirement names, optionally with a requirement of its own) are generated in a fifth of the universes; for those only the graph clauses are asserted, as the property says"],
+                                     "bundled (derived) packages (a version brings along a copy of the package its first requirement names, optionally with a requirement of its own) are generated in a fifth of the universes; for those the graph clauses are asserted, as the property says, plus two clauses on where bundle content sits (a bundled copy sits in the directory of the version that ships it; an installed version has its own bundle content in its directory); a directed family makes the freshly installed version differ from the highest match while either ships a bundle"],
                         bounds={"skeletons_gen1": n, "skeletons_gen2": n2 + na, "packages": "3-4", "versions_per_package": 3, "slots_per_version": 2, "digits": "1-4"})
